@@ -1160,10 +1160,10 @@ class M:
                 return None
             d = self.r.choice(donors)
             self.p.main.funcs.remove(d)
-            d.shadow = [["assert", ["bool", True]]]
+            d.shadow = None          # a shadow block is only allowed at top level
             host.body.insert(0, ["fndef", d])
             return "fn_moved_into_fn"
-        fn = A.Func(name, [["x", "int"]], "int", [["return", body_e]], shadow=[["assert", ["bool", True]]] if self.r.random() < 0.7 else None)
+        fn = A.Func(name, [["x", "int"]], "int", [["return", body_e]], shadow=None)
         # place it after the captured variable's let when possible
         pos = 0
         if cap is not None:
@@ -1535,6 +1535,10 @@ def run(ctx):
                 labs.append("%s=%s" % (side, o.label()))
                 count("cell:%s:%s" % (side, o.cls))
                 if o.cls == "stuck":
+                    if name.startswith("census/") or name.startswith("c04/cell_"):
+                        # a hand-written cell is a named construct: it is listed on its own, not under the message it shares
+                        # with other causes (witnesses of mutant keys, the other files of findings/C04, keep the plain key)
+                        o.key = "cell|%s|%s|%s" % (name.split("/", 1)[1].replace("cell_", "", 1) if name.startswith("c04/") else name, o.stage, o.detail)
                     note_stuck(o, "cell " + name)
                     report(ctx, o, "cell %s (%s backend): accepted by the type checker, then stuck at stage '%s': %s" % (
                         name, side, o.stage, o.detail), cells[name])
